@@ -9,7 +9,7 @@ PID = "C02"
 LEVEL = "proof"
 COQ_TARGETS = ["Props/C02.vo", "Props/C02_identities.vo", "Props/C02_ratio.vo", "Props/C02_fp.vo", "Props/C02_model.vo"]
 PROPS_FILES = ["C02", "C02_identities", "C02_ratio", "C02_fp", "C02_model"]
-THEOREMS = ["C02_model_zeta_event", "C02_model_geo_d_event", "C02_model_geo_trivial_event", "C02_model_binv_event", "C02_model_binv_cell_pmf", "C02_model_knuth_event", "C02_model_hin_event", "C02_fingerprints", "C02_binv_recurrence", "C02_binv_sampler_event", "C02_binomial_flip", "C02_geometric_split", "C02_std_geometric_form",
+THEOREMS = ["C02_model_zipf_event", "C02_model_zeta_event", "C02_model_geo_d_event", "C02_model_geo_trivial_event", "C02_model_binv_event", "C02_model_binv_cell_pmf", "C02_model_knuth_event", "C02_model_hin_event", "C02_fingerprints", "C02_binv_recurrence", "C02_binv_sampler_event", "C02_binomial_flip", "C02_geometric_split", "C02_std_geometric_form",
             "C02_hyper_reflect_bijection", "C02_hyper_reflect_pmf", "C02_hin_recurrence", "C02_zeta_identity", "C02_zeta_accept_le_1",
             "C02_zipf_accept_mass", "C02_knuth_form", "C02_fingerprints",
             "C02_btpe_exact_ratio", "C02_btpe_accept_iff", "C02_btpe_f51_exact_ratio", "C02_h2pe_exact_ratio", "C02_h2pe_accept_iff",
